@@ -723,8 +723,8 @@ def replay(ctx, case):
     run = run_case(c)
     print('   outcomes in-process', run.outs[0])
     print('   outcomes file-backed', run.outs[1])
-    print('   in-process  ', sorted((n, dict(l), v) for _, n, l, v, _ in run.raw[0])[:24])
-    print('   multiprocess', sorted((n, dict(l), v) for _, n, l, v, _ in run.raw[1])[:24])
+    print('   in-process  ', [(n, dict(l), v) for n, l, v in sorted((n, l, repr(v)) for _, n, l, v, _ in run.raw[0])][:24])
+    print('   multiprocess', [(n, dict(l), v) for n, l, v in sorted((n, l, repr(v)) for _, n, l, v, _ in run.raw[1])][:24])
     for f in ctx.failures:
         print('REPLAY-FAIL', f['sig'], f['what'])
     for f in ctx.divergences:
